@@ -33,8 +33,12 @@ for v in variants:
         for prop in v["property"].split(","):
             r = subprocess.run([os.path.join(ROOT, "check"), prop], env=env, capture_output=True, text=True, errors='replace')
             out = r.stdout + r.stderr
-            hit = r.returncode == 1 and "VIOLATION property=" + prop in out and all(x in out for x in v.get("expect", []))
-            print(("ok    " if hit else "MISS  ") + f"{prop} {v['name']}")
+            if v.get("silent"):
+                hit = r.returncode == 0 and "VIOLATION" not in out
+                print(("quiet " if hit else "ALARM ") + f"{prop} {v['name']}")
+            else:
+                hit = r.returncode == 1 and "VIOLATION property=" + prop in out and all(x in out for x in v.get("expect", []))
+                print(("ok    " if hit else "MISS  ") + f"{prop} {v['name']}")
             if not hit:
                 fails += 1
                 lines = [l for l in out.splitlines() if "FAIL" in l or "UNDEC" in l or l.startswith("        ")]
